@@ -857,6 +857,10 @@ class Interp:
                 return d_
             if nm == "fromkeys" and False:
                 pass
+            if nm == "isclose" and len(args) == 2 and all(_is_num(a) for a in args) and nm not in env \
+                    and all(_is_num(v) for v in kwargs.values()) and set(kwargs) <= {"rel_tol", "abs_tol"}:
+                import math as _m
+                return _m.isclose(float(args[0]), float(args[1]), **{k: float(v) for k, v in kwargs.items()})
             if nm == "map" and len(args) == 2 and isinstance(args[1], (list, set)) and nm not in env:
                 return [self.apply(args[0], [x], env, depth) for x in (args[1] if isinstance(args[1], list) else sorted(args[1], key=repr))]
             if nm == "filter" and len(args) == 2 and isinstance(args[1], list) and nm not in env and args[0] is not None:
